@@ -5,8 +5,8 @@ samples), C13 (SP strict priority), C15 (RR / WRR visiting order) and C08 (conse
 Model: coq/Elem/SchedBase.v (one executable automaton for put(), the per-flow stores, the wake-up token store, the
 send_packet child and the pass/cursor run() loop) instantiated by coq/Elem/SP.v, RR.v, WRR.v.
 
-Case:  {"kind": "sp"|"rr"|"wrr"|"schedmon", "sched": "sp"|"rr"|"wrr", "rate": int, "classes": [[flow, prio|weight|1], ...]
-        (declaration order), "workload": elem_common workload, "pre": [bool per driver] (driver created before the
+Case:  {"kind": "sp"|"rr"|"wrr"|"schedmon", "sched": "sp"|"rr"|"wrr", "rate": int, "classes": [[class, prio|weight|1], ...]
+        (declaration order), "cmap": None | [[flow, class], ...] (SP only: flow2class, several flows per class), "workload": elem_common workload, "pre": [bool per driver] (driver created before the
         scheduler), "monitor": None | {"dist": ["n/d", ...], "included": bool}}
 Log -> actions:  put -> SPut p;  Initialize run -> SInit;  StorePut of the token store / of store f -> SStoreCb None / (Some f);
         StoreGet of the token store / of store f -> SGetDone None / (Some f);  Initialize send_packet -> SChildInit;
@@ -50,12 +50,32 @@ class DistScript:
         return v
 
 
-def cfg_flows(case):
+def cfg_classes(case):
     out = []
     for f, _ in case["classes"]:
         if f not in out:
             out.append(f)
     return sorted(out)
+
+
+def cfg_flows(case):
+    """the flows whose counters are observed: the domain of the class map, or (identity map) the classes"""
+    if case.get("cmap"):
+        return sorted({f for f, _ in case["cmap"]})
+    return cfg_classes(case)
+
+
+def class_of(case):
+    m = {f: k for f, k in (case.get("cmap") or [])}
+    return lambda f: m.get(f, f)
+
+
+class Hang(Exception):
+    pass
+
+
+def _hang(signum, frame):
+    raise Hang("run() loops without yielding")
 
 
 class MQPart:
@@ -111,9 +131,18 @@ class MQPart:
             sched = kind if kind != "schedmon" else rng.choice(["sp", "rr", "wrr"])
         nfl = rng.choice([1, 2, 2, 3, 3, 4, 5])
         flows = rng.sample(range(0, 7), nfl)
+        cmap = None
         if sched == "sp":
             pset = rng.choice([[1, 2], [1, 2, 3], [1, 2, 3], [1, 5, 10], [2, 2, 7]])
-            classes = [[f, rng.choice(pset)] for f in flows]
+            if rng.random() < 0.5:
+                # flow2class: several flows per class; class ids differ from flow ids in general
+                ncl = rng.randint(1, min(3, nfl))
+                ids = rng.sample(rng.choice([range(0, 7), range(10, 14)]), ncl)
+                cmap = [[f, ids[i] if i < ncl else rng.choice(ids)] for i, f in enumerate(flows)]
+                classes = [[k, rng.choice(pset)] for k in ids]
+                rng.shuffle(classes)
+            else:
+                classes = [[f, rng.choice(pset)] for f in flows]
         elif sched == "wrr":
             classes = [[f, rng.choice([1, 1, 2, 2, 3])] for f in flows]
         else:
@@ -132,7 +161,8 @@ class MQPart:
             if rng.random() < 0.2:
                 lat = lat + [Fraction(0)]
             mon = {"dist": [cf.qjson(rng.choice(lat)) for _ in range(rng.randint(3, 12))], "included": rng.random() < 0.5}
-        return {"kind": kind, "sched": sched, "rate": rate, "classes": classes, "workload": w, "pre": pre, "monitor": mon}
+        return {"kind": kind, "sched": sched, "rate": rate, "classes": classes, "cmap": cmap, "workload": w, "pre": pre,
+                "monitor": mon}
 
     # ---- implementation -------------------------------------------------------------------------
     def run_impl(self, case):
@@ -150,11 +180,18 @@ class MQPart:
         rate = case["rate"]
         classes = case["classes"]
         flows = cfg_flows(case)
+        klasses = cfg_classes(case)
         sink = io.StringIO()
+        import signal
+        import time
         with contextlib.redirect_stdout(sink):
             if case["sched"] == "sp":
                 from onl.scheduler.sp import SP
-                s = SP(env, rate, {f: p for f, p in classes})
+                if case.get("cmap"):
+                    m = {f: k for f, k in case["cmap"]}
+                    s = SP(env, rate, {k: p for k, p in classes}, flow2class=lambda f, m=m: m[f])
+                else:
+                    s = SP(env, rate, {f: p for f, p in classes})
             elif case["sched"] == "rr":
                 from onl.scheduler.rr import RR
                 s = RR(env, rate, [f for f, _ in classes])
@@ -173,8 +210,8 @@ class MQPart:
             seen = {}
 
             def sample():
-                q = [[f, s.queue_count.get(f, 0), s.queue_byte_size.get(f, 0),
-                      len(s.stores[f].items) if f in s.stores else 0] for f in flows]
+                q = [[f, s.queue_count.get(f, 0), s.queue_byte_size.get(f, 0)] for f in flows]
+                st = [[k, len(s.stores[k].items) if k in s.stores else 0] for k in klasses]
                 cur = s.current_packet
                 m = []
                 if mon is not None:
@@ -185,12 +222,21 @@ class MQPart:
                             m.append([f, a[i] if i < len(a) else None, b[i] if i < len(b) else None])
                         seen[f] = max(len(a), len(b))
                 return [q, None if cur is None else getattr(cur, "uid", -1), s.packets_received,
-                        len(s.packets_available.items), s.total_packets, m]
+                        len(s.packets_available.items), s.total_packets, m, st]
             h.after_action(sample)
             for d, p in zip(w["drivers"], pre):
                 if not p:
                     h.add_driver(d["bursts"], late=d["late"])
-            log = h.run(max_steps=20000, until=HORIZON)
+            # a run() that loops without yielding never comes back from env.step(): bound the run ourselves
+            old_h = signal.signal(signal.SIGALRM, _hang)
+            t0 = time.time()
+            old_t = signal.setitimer(signal.ITIMER_REAL, 4.0)
+            try:
+                log = h.run(max_steps=20000, until=HORIZON)
+            finally:
+                left = max(old_t[0] - (time.time() - t0), 0.05) if old_t[0] else 0
+                signal.signal(signal.SIGALRM, old_h)
+                signal.setitimer(signal.ITIMER_REAL, left)
         rest = [type(e[3]).__name__ + ":" + ",".join(sorted(h.pname(getattr(cb, "__self__", None))
                                                             for cb in (e[3].callbacks or [])
                                                             if isinstance(getattr(cb, "__self__", None), h.Process)))
@@ -203,7 +249,9 @@ class MQPart:
         rate = cf.q(case["rate"])
         cl = case["classes"]
         if case["sched"] == "sp":
-            return f"(SP.sp_cfg true {rate} {cf.lst([cf.pair(cf.z(f), cf.z(p)) for f, p in cl])})"
+            cm = cf.lst([cf.pair(cf.z(f), cf.z(k)) for f, k in (case.get("cmap") or [])])
+            fl = cf.lst([cf.z(f) for f in cfg_flows(case)])
+            return f"(SP.sp_cfg true {rate} (SchedBase.cls_of {cm}) {fl} {cf.lst([cf.pair(cf.z(f), cf.z(p)) for f, p in cl])})"
         if case["sched"] == "rr":
             return f"(RR.rr_cfg {rate} {cf.lst([cf.z(f) for f, _ in cl])})"
         return f"(WRR.wrr_cfg {rate} {cf.lst([cf.pair(cf.z(f), cf.z(p)) for f, p in cl])})"
@@ -248,12 +296,13 @@ class MQPart:
             else:
                 return None, f"unexpected log entry {e[:2]}"
             fw = cf.lst([f"SchedBase.OForward {ec.pkt_coq(specs[str(x[2])], x[2])}" for x in outs])
-            q, cur, rec, tok, tot, m = sample
+            q, cur, rec, tok, tot, m, st = sample
             if any(x[1] is None or x[2] is None for x in m):
                 return None, "monitor sample lists of unequal length"
-            qs = cf.lst([f"({cf.z(f)}, {cf.z(c)}, {cf.z(b)}, {cf.nat(n)})" for f, c, b, n in q])
+            qs = cf.lst([f"({cf.z(f)}, {cf.z(c)}, {cf.z(b)})" for f, c, b in q])
+            sts = cf.lst([f"({cf.z(k)}, {cf.nat(n)})" for k, n in st])
             ms = cf.lst([f"({cf.z(f)}, {cf.z(c)}, {cf.z(b)})" for f, c, b in m])
-            acts.append(f"({a}, {fw}, SchedBase.mkobs {qs} {cf.opt(cur, cf.nat)} {cf.z(rec)} {cf.nat(tok)} {cf.z(tot)} {ms})")
+            acts.append(f"({a}, {fw}, SchedBase.mkobs {qs} {sts} {cf.opt(cur, cf.nat)} {cf.z(rec)} {cf.nat(tok)} {cf.z(tot)} {ms})")
         return acts, None
 
     def agree_term(self, case, obs):
@@ -272,23 +321,28 @@ class MQPart:
     def _walk(self, case, obs):
         """independent bookkeeping from the log: arrivals, dequeues (store length drops), starts, ends, clock moves"""
         specs = case["workload"]["packets"]
-        flows = cfg_flows(case)
+        klasses = cfg_classes(case)
+        cls = class_of(case)
         now = Fraction(0)
         W = {"events": [], "msgs": []}
-        waiting = {f: [] for f in flows}        # uids put and not yet dequeued, arrival order
+        waiting = {k: [] for k in klasses}      # per class store: uids put and not yet dequeued, arrival order
         arrived, forwarded = [], []
         insvc = None                            # (uid, start instant)
         committed = None                        # uid dequeued, transmission not yet started
-        prev_len = {f: 0 for f in flows}
+        prev_len = {k: 0 for k in klasses}
         arr_time = {}
         for idx, e in enumerate(obs["log"]):
             kind = e[0]
             if kind == "raise":
-                W["msgs"].append(f"mq-raises: {e[3]} while processing {e[1]}")
+                if e[3][0] == "Hang":
+                    W["msgs"].append(f"mq-hangs: run() loops without yielding while the kernel processes {e[1]} at {now} "
+                                     f"({len(arrived) - len(forwarded)} packet(s) held)")
+                else:
+                    W["msgs"].append(f"mq-raises: {e[3]} while processing {e[1]}")
                 break
             sample = e[-1]
-            q, cur, rec, tok, tot, m = sample
-            lens = {f: n for f, _, _, n in q}
+            q, cur, rec, tok, tot, m, st = sample
+            lens = {k: n for k, n in st}
             ev = {"idx": idx, "kind": kind, "now": now, "label": e[1] if kind == "step" else None, "sample": sample,
                   "waiting_before": {f: list(v) for f, v in waiting.items()}, "insvc_before": insvc,
                   "committed_before": committed, "held_before": len(arrived) - len(forwarded), "deq": None, "start": None,
@@ -301,7 +355,7 @@ class MQPart:
                 now = t
             elif kind == "put":
                 uid = e[1]
-                f = specs[str(uid)]["flow"]
+                f = cls(specs[str(uid)]["flow"])
                 arrived.append(uid)
                 arr_time[uid] = now
                 waiting[f].append(uid)
@@ -309,13 +363,13 @@ class MQPart:
                 if e[2]:
                     W["msgs"].append(f"mq-forward-in-put: put({uid}) forwarded {e[2]}")
             if kind in ("put", "step"):
-                for f in flows:
-                    exp = prev_len[f] + (1 if kind == "put" and specs[str(e[1])]["flow"] == f else 0)
+                for f in klasses:
+                    exp = prev_len[f] + (1 if kind == "put" and cls(specs[str(e[1])]["flow"]) == f else 0)
                     if lens[f] == exp - 1 and kind == "step":
                         if ev["deq"] is not None:
                             W["msgs"].append("mq-two-dequeues: one kernel step dequeued from two stores")
                         if not waiting[f]:
-                            W["msgs"].append(f"mq-dequeue-empty: store of flow {f} shrank with nothing waiting")
+                            W["msgs"].append(f"mq-dequeue-empty: store of class {f} shrank with nothing waiting")
                         else:
                             uid = waiting[f].pop(0)
                             ev["deq"] = (f, uid)
@@ -359,10 +413,12 @@ class MQPart:
     def monitor(self, case, obs, prop_id):
         specs = case["workload"]["packets"]
         flows = cfg_flows(case)
+        klasses = cfg_classes(case)
+        cls = class_of(case)
         W = self._walk(case, obs)
         msgs = list(W["msgs"]) if prop_id in ("C12", "C08") else [m for m in W["msgs"] if m.startswith(
-            ("mq-raises", "mq-overlap", "mq-tx-time", "mq-forward-not-in-service"))]
-        if obs["raised"] and not any(m.startswith("mq-raises") for m in msgs):
+            ("mq-raises", "mq-hangs", "mq-overlap", "mq-tx-time", "mq-forward-not-in-service"))]
+        if obs["raised"] and not any(m.startswith(("mq-raises", "mq-hangs")) for m in msgs):
             msgs.append(f"mq-raises: {obs['raised']}")
         evs = W["events"]
         fl = lambda u: specs[str(u)]["flow"]
@@ -388,13 +444,13 @@ class MQPart:
                         msgs.append(f"mq-idle-with-backlog: clock moves {ev['now']} -> {ev['to']} with {ev['held_before']} "
                                     f"packet(s) held and no transmission in progress")
                     continue
-                q, cur, rec, tok, tot, m = ev["sample"]
+                q, cur, rec, tok, tot, m, _st = ev["sample"]
                 if ev["kind"] == "put":
                     held_flow[fl(ev["put"])].append(ev["put"])
                 for u in ev["fwd"]:
                     if u in held_flow[fl(u)]:
                         held_flow[fl(u)].remove(u)
-                for f, c, b, _n in q:
+                for f, c, b in q:
                     ec_, eb = len(held_flow[f]), sum(specs[str(u)]["size"] for u in held_flow[f])
                     if (c, b) != (ec_, eb):
                         msgs.append(f"mq-counters: after action {ev['idx']} flow {f} queue_count/byte_size = {c}/{b}, "
@@ -418,20 +474,22 @@ class MQPart:
                             msgs.append(f"mq-monitor-sample: service_included={incl} flow {f} sampled size/bytes {c}/{b} "
                                         f"at {ev['now']}, packets waiting{' or in transmission' if incl else ''}: {exp[0]}/{exp[1]}")
         if prop_id == "C13" and case["sched"] == "sp":
-            prio = {f: p for f, p in case["classes"]}
+            prio = {k: p for k, p in case["classes"]}          # priority per CLASS; a flow has the priority of its class
             for ev in evs:
                 if ev["deq"]:
                     f, uid = ev["deq"]
-                    hi = [(g, u) for g in flows if prio[g] > prio[f] for u in ev["waiting_before"][g]]
+                    hi = [(g, u) for g in klasses if prio[g] > prio[f] for u in ev["waiting_before"][g]]
                     if hi:
-                        msgs.append(f"sp-not-strict: at {ev['now']} SP takes packet {uid} of flow {f} (priority {prio[f]}) while "
-                                    f"{[(u, 'flow %d prio %d' % (g, prio[g])) for g, u in hi][:4]} wait")
+                        msgs.append(f"sp-not-strict: at {ev['now']} SP takes packet {uid} of class {f} (priority {prio[f]}) while "
+                                    f"{[(u, 'class %d prio %d' % (g, prio[g])) for g, u in hi][:4]} wait")
+                    if cls(fl(uid)) != f:
+                        msgs.append(f"sp-wrong-class: packet {uid} of flow {fl(uid)} (class {cls(fl(uid))}) served from the queue of class {f}")
                 if ev["start"] is not None:
-                    f = fl(ev["start"])
-                    old = [(g, u) for g in flows if prio[g] > prio[f] for u in ev["waiting_before"][g]
+                    f = cls(fl(ev["start"]))
+                    old = [(g, u) for g in klasses if prio[g] > prio[f] for u in ev["waiting_before"][g]
                            if W["arr_time"][u] < ev["now"]]
                     if old:
-                        msgs.append(f"sp-not-strict: transmission of packet {ev['start']} (flow {f}, priority {prio[f]}) starts at "
+                        msgs.append(f"sp-not-strict: transmission of packet {ev['start']} (class {f}, priority {prio[f]}) starts at "
                                     f"{ev['now']} while packets {old[:4]} of higher priority have been waiting since before")
         if prop_id == "C15" and case["sched"] in ("rr", "wrr"):
             msgs += self._visit_monitor(case, evs)
@@ -484,7 +542,7 @@ class MQPart:
                     if r:
                         cursor = r[1]
             if ev["kind"] in ("put", "step"):
-                for f, _c, _b, n in ev["sample"][0]:
+                for f, n in ev["sample"][6]:
                     lens[f] = n
         return msgs
 
@@ -523,7 +581,14 @@ class MQPart:
             if len(d) > 1:
                 yield {**case, "monitor": {**case["monitor"], "dist": d[:-1]}}
                 yield {**case, "monitor": {**case["monitor"], "dist": d[1:]}}
-        used = {p["flow"] for p in case["workload"]["packets"].values()}
+        cls = class_of(case)
+        usedf = {p["flow"] for p in case["workload"]["packets"].values()}
+        used = {cls(f) for f in usedf}
+        cm = case.get("cmap")
+        if cm:
+            for i in range(len(cm)):
+                if cm[i][0] not in usedf:
+                    yield {**case, "cmap": cm[:i] + cm[i + 1:]}
         cl = case["classes"]
         for i in range(len(cl)):
             if len(cl) > 1 and cl[i][0] not in used:
@@ -542,6 +607,9 @@ class MQPart:
             keys.append(f"{k}:late-driver")
         if case.get("monitor"):
             keys.append(f"{k}:service_included={case['monitor']['included']}")
+        if case.get("cmap"):
+            nk = len({c for _, c in case["cmap"]})
+            keys.append(f"{k}:flow2class={len(case['cmap'])}flows->{nk}classes")
         return keys
 
 
